@@ -881,7 +881,9 @@ func extraC08(col *Collector, r *RNG, tier string) {
 				continue
 			}
 			f0 := fields(ans)
-			for _, mode := range []string{"deep-ahead", "deep-lockstep", "scribble-ahead", "scribble-slow"} {
+			// a scribbling run comes first: process-wide decoder state (a cache of the last rendering, say) is then
+			// still that of the previous history, so its first values are computed, not reused
+			for _, mode := range []string{"scribble-ahead", "deep-ahead", "scribble-slow", "deep-lockstep"} {
 				s, mp := newStreamer(m, h, 8, firstFile, 4)
 				opts := defaultOpts()
 				opts.deep = strings.HasPrefix(mode, "deep")
